@@ -31,6 +31,7 @@ type Case struct {
 	NAct       int    `json:"activators"`
 	Revoke     bool   `json:"revoke"`
 	SecondNode bool   `json:"second_node"` // the last activator goes through another node's service stack
+	Cluster    bool   `json:"cluster"`     // two nodes, each with its own hybrid store + node-local cache over one shared cache tier
 	Gran       string `json:"granularity"` // which tier operations are scheduling points: code | shared | all
 	QuotaFull  int    `json:"quota_full"`  // index of an activator whose listen client is already at its mapping quota (-1 none)
 	Picks      []int  `json:"picks"`
@@ -144,10 +145,10 @@ func runConcurrent(c Case, choose func(int, []string) int) outcome {
 		max = 1
 	}
 	nNodes := 1
-	if c.SecondNode {
+	if c.SecondNode || c.Cluster {
 		nNodes = 2
 	}
-	w := newWorldSel(nNodes, &services.ConnectionCodeServiceConfig{MaxActiveCodesPerClient: 10, MaxActiveMappingsPerClient: max}, granSel(c.Gran))
+	w := newWorldWith(nNodes, &services.ConnectionCodeServiceConfig{MaxActiveCodesPerClient: 10, MaxActiveMappingsPerClient: max}, true, granSel(c.Gran), c.Cluster)
 	defer w.close()
 	var o outcome
 	// ---- set-up (ungated) --------------------------------------------------------
@@ -178,6 +179,9 @@ func runConcurrent(c Case, choose func(int, []string) int) outcome {
 		n := w.nodes[0]
 		if c.SecondNode && i == c.NAct-1 {
 			n = w.nodes[1]
+		}
+		if c.Cluster {
+			n = w.nodes[(i+1)%2] // A1 on node 2, A2 on node 1, A3 on node 2; the code was created (and is revoked) on node 1
 		}
 		w.g.Go(fmt.Sprintf("A%d", i+1), func() {
 			a.mapping, a.err = n.cc.ActivateConnectionCode(&services.ActivateConnectionCodeRequest{Code: code.Code, ListenClientID: a.listen, ListenAddress: a.addr})
@@ -283,7 +287,9 @@ func runConcurrent(c Case, choose func(int, []string) int) outcome {
 	if c.Revoke {
 		prog += "+R"
 	}
-	if c.SecondNode {
+	if c.Cluster {
+		prog += "/cluster"
+	} else if c.SecondNode {
 		prog += "/2nodes"
 	}
 	if c.QuotaFull >= 0 {
@@ -464,12 +470,8 @@ func recStr(c *models.TunnelConnectionCode) string {
 	return fmt.Sprintf("{activated=%v by=%s mapping=%s revoked=%v}", c.IsActivated, by, mid, c.IsRevoked)
 }
 
-func newWorldSel(nNodes int, cfg *services.ConnectionCodeServiceConfig, sel func(string) bool) *world {
-	return newWorldWith(nNodes, cfg, true, sel)
-}
-
 func sigOf(c Case, o outcome) string {
-	return fmt.Sprintf("%d|%v|%v|%s|%d|%s|%s", c.NAct, c.Revoke, c.SecondNode, c.Gran, c.QuotaFull, o.failedOp, normSteps(o.log))
+	return fmt.Sprintf("%d|%v|%v|%v|%s|%d|%s|%s", c.NAct, c.Revoke, c.SecondNode, c.Cluster, c.Gran, c.QuotaFull, o.failedOp, normSteps(o.log))
 }
 
 func report(t vkit.TB, c Case, o outcome) {
@@ -601,14 +603,21 @@ func spaces() []space {
 	mk := func(n int, rev, second bool, gran string, quota int) Case {
 		return Case{Mode: "concurrent", NAct: n, Revoke: rev, SecondNode: second, Gran: gran, QuotaFull: quota, FailAt: -1}
 	}
+	cl := func(c Case) Case { c.Cluster = true; return c }
 	return []space{
 		// code-record granularity: 3 scheduling points per task
-		{mk(2, false, false, "code", -1), 1, 1 << 30, false},  // 20 schedules
-		{mk(2, false, true, "code", -1), 1, 1 << 30, false},   // 20, second activator on another node
-		{mk(2, true, false, "code", -1), 2, 1 << 30, false},   // 1680
-		{mk(3, false, true, "code", -1), 2, 1 << 30, false},   // 1680
-		{mk(2, false, false, "code", 0), 1, 1 << 30, false},   // quota-full activator races a valid one
+		{mk(2, false, false, "code", -1), 1, 1 << 30, false},              // 20 schedules
+		{mk(2, false, true, "code", -1), 1, 1 << 30, false},               // 20, second activator on another node
+		{mk(2, true, false, "code", -1), 2, 1 << 30, false},               // 1680
+		{mk(3, false, true, "code", -1), 2, 1 << 30, false},               // 1680
+		{mk(2, false, false, "code", 0), 1, 1 << 30, false},               // quota-full activator races a valid one
 		{mk(3, true, false, "code", -1), 3, vkit.Pick(400, 60000), false}, // 369600: capped
+		// cluster topology (own hybrid store + node-local cache per node, one shared tier): the racing calls run on different nodes
+		{cl(mk(2, false, false, "code", -1)), 1, 1 << 30, false},
+		{cl(mk(1, true, false, "code", -1)), 1, 1 << 30, false}, // revoke on node 1, activation on node 2
+		{cl(mk(2, true, false, "code", -1)), 2, 1 << 30, false},
+		{cl(mk(3, false, false, "code", -1)), 2, 1 << 30, false},
+		{cl(mk(2, false, false, "shared", -1)), 4, vkit.Pick(300, 1<<30), false},
 		// shared-key granularity: 9 scheduling points per activator (48620 schedules for two)
 		{mk(2, false, false, "shared", -1), 4, 1 << 30, false}, // complete in both tiers
 		{mk(2, false, true, "shared", -1), 4, vkit.Pick(300, 1<<30), false},
@@ -626,7 +635,9 @@ func TestExhaustive(t *testing.T) {
 		if s.c.Revoke {
 			name += "+R"
 		}
-		if s.c.SecondNode {
+		if s.c.Cluster {
+			name += "/cluster"
+		} else if s.c.SecondNode {
 			name += "/2nodes"
 		}
 		if s.c.QuotaFull >= 0 {
@@ -647,6 +658,7 @@ func TestFaultEnumeration(t *testing.T) {
 		{Mode: "concurrent", NAct: 2, Gran: "code", QuotaFull: -1},
 		{Mode: "concurrent", NAct: 2, Gran: "code", QuotaFull: -1, SecondNode: true},
 		{Mode: "concurrent", NAct: 1, Revoke: true, Gran: "code", QuotaFull: -1},
+		{Mode: "concurrent", NAct: 2, Gran: "code", QuotaFull: -1, Cluster: true},
 	} {
 		complete := true
 		dead := 1 << 30 // smallest write index seen that no schedule reaches
@@ -679,18 +691,19 @@ func TestFaultEnumeration(t *testing.T) {
 				dead = failAt
 			}
 		}
-		vkit.Exhaustive(fmt.Sprintf("single-write-fault x schedules:%dA/rev=%v/2nodes=%v/gran=%s", base.NAct, base.Revoke, base.SecondNode, base.Gran), complete)
+		vkit.Exhaustive(fmt.Sprintf("single-write-fault x schedules:%dA/rev=%v/2nodes=%v/cluster=%v/gran=%s", base.NAct, base.Revoke, base.SecondNode, base.Cluster, base.Gran), complete)
 	}
 	vkit.AddExtra("fault_enum_runs", int64(total))
 }
 
 // TestRandomSchedules: rapid-drawn program, granularity, pick sequence and single fault.
 func TestRandomSchedules(t *testing.T) {
-	vkit.Check(t, 2400, 80000, func(t *rapid.T) {
+	vkit.Check(t, 6000, 80000, func(t *rapid.T) {
 		c := Case{Mode: "concurrent",
 			NAct:       rapid.IntRange(2, 3).Draw(t, "activators"),
 			Revoke:     rapid.Bool().Draw(t, "revoke"),
 			SecondNode: rapid.Bool().Draw(t, "secondNode"),
+			Cluster:    rapid.SampledFrom([]bool{false, true, true}).Draw(t, "cluster"),
 			Gran:       rapid.SampledFrom([]string{"code", "shared", "shared", "all"}).Draw(t, "gran"),
 			QuotaFull:  rapid.SampledFrom([]int{-1, -1, -1, 0, 1}).Draw(t, "quotaFull"),
 			FailAt:     rapid.SampledFrom([]int{-1, -1, 0, 1, 2, 3, 4, 5, 6, 7, 8, 9, 10, 11, 12, 13, 14, 15, 16, 18, 20, 24}).Draw(t, "failAt"),
@@ -721,4 +734,3 @@ func TestReplay(t *testing.T) {
 	o := runConcurrent(c, p.Choose)
 	report(t, c, o)
 }
-
